@@ -172,6 +172,16 @@ REBATE_START = {2021: by_status(2021, 75000, 150000, 75000, 112500)}
 REBATE_END = {2021: by_status(2021, 80000, 160000, 80000, 120000)}
 REBATE_RANGE = {2021: by_status(2021, 5000, 10000, 5000, 7500)}
 REBATE_PER_PERSON = {2021: 1400}
+# I.R.C. 6428B(b)(1): $1,400 per eligible individual, $2,800 for eligible individuals filing a joint return; 6428B(e)(2)(B): a joint
+# return on which only one spouse has a valid SSN gets $1,400, unless at least one spouse was a member of the Armed Forces (then
+# $2,800).  2021 Form 1040 instructions, Recovery Rebate Credit Worksheet line 6: "$1,400 if single, head of household, married
+# filing separately, qualifying widow(er), or if married filing jointly and you answered 'Yes' to question 4; $2,800 if married
+# filing jointly and you answered 'Yes' to question 2 or 3; zero if you answered 'Yes' to question 5" (cited transcription: the 2021
+# booklet is not bundled).
+REBATE_BASE_BOTH_SSN = {2021: by_status(2021, 1400, 2800, 1400, 1400, qss=1400)}        # question 2 answered Yes
+REBATE_BASE_ARMED_FORCES = {2021: {'MarriedFilingJointly': 2800}}                        # joint, question 2 No, question 3 Yes
+REBATE_BASE_ONE_SSN = {2021: {'MarriedFilingJointly': 1400}}                             # joint, questions 2 and 3 No, question 4 Yes
+REBATE_BASE_DEPENDENTS_ONLY = {2021: by_status(2021, 0, 0, 0, 0, qss=0)}                 # no valid SSN of one's own, question 5 Yes
 
 # NC child deduction per qualifying child by federal AGI (D-401 instructions, Child Deduction Table).
 # list of (AGI upper bound inclusive, amount); above the last bound the deduction is 0.
